@@ -5,12 +5,12 @@
 # there, and the patch is undone. Columns: patch, check, CAUGHT|MISSED|INCONCLUSIVE|DOES-NOT-APPLY, signature.
 set -u
 OUT=${1:-/verif/mutants/RESULTS.tsv}; shift || true
-S=/dev/shm/sweep
+S=/tmp/brc20-sweep
 rm -rf $S; mkdir -p $S
 git -C /repo worktree prune
-cp -r /repo $S/repo 2>/dev/null; rm -rf $S/repo/target; (cd $S/repo && git checkout -q -- . 2>/dev/null)
+rsync -a --exclude target /repo/ $S/repo/; (cd $S/repo && git checkout -q -- . 2>/dev/null)
 mkdir -p $S/verif; for f in harness check KNOWN_FINDINGS.txt replays golden MANIFEST.json; do cp -r /verif/$f $S/verif/; done
-cp -al /verif/target $S/verif/target 2>/dev/null
+cp -r /verif/target $S/verif/target 2>/dev/null   # a real copy: hardlinked cargo target dirs contaminate each other
 rm -rf $S/verif/replays/found
 targets() {  # which checks a patch is aimed at
   local n=$(basename "$1")
